@@ -81,7 +81,7 @@ func Ob_C01C03C20_Hook_GlobalResidue() {
 
 // C03 R-writers: a complete Before/After hook pair leaves nothing behind - neither in the store (the
 // hand-over entry is consumed) nor anywhere a later hook would read it.
-func Ob_C03_Hook_PairResetsGlobal() {
+func Ob_C03C20_Hook_PairResetsGlobal() {
 	w := NewWorld()
 	concreteNodeParams(w, 1000000, 1000000000000)
 	del, val := sym.String("delegator"), sym.String("validator")
